@@ -14,14 +14,14 @@ type opts struct {
 	prop, in, out, groups, tier string
 	seed                        int64
 	bindings, max, maxslow      int
-	scalars, codecall           bool
+	scalars, codecall, adapters bool
 	lastop                      string
 }
 
 var drivers = map[string]func(o opts, res *core.Result) error{
 	"alg": func(o opts, res *core.Result) error {
 		return alg.Run(alg.Config{Prop: o.prop, In: o.in, Seed: o.seed, Bindings: o.bindings, Max: o.max, MaxSlow: o.maxslow,
-			ScalarsOnly: o.scalars, Groups: o.groups, CodecAll: o.codecall}, res)
+			ScalarsOnly: o.scalars, Groups: o.groups, CodecAll: o.codecall, Adapters: o.adapters}, res)
 	},
 }
 
@@ -44,6 +44,7 @@ func main() {
 	fs.IntVar(&o.maxslow, "maxslow", 0, "same for slow groups")
 	fs.BoolVar(&o.scalars, "scalars", false, "one group per scalar implementation")
 	fs.BoolVar(&o.codecall, "codecall", false, "cycle codec paths over bindings")
+	fs.BoolVar(&o.adapters, "adapters", false, "also run the suite-as-group adapters")
 	fs.StringVar(&o.lastop, "lastop", "", "pickembed: only behaviours ending in this op")
 	_ = fs.Parse(os.Args[2:])
 	res := core.NewResult(o.prop)
